@@ -147,6 +147,7 @@ Definition ucheck (k : ucase) : bool :=
 From Verif Require Import C06.FModel.
 Record fcase := {
   f_e : fexpr (T:=Q); f_w : list Q;   (* weights of the functional's domain *)
+  f_rzv : bool; f_mav : bool;         (* measured variants, see FModel *)
   f_x : list Q; f_d : list Q;
   f_val : Q;                 (* f(x) *)
   f_grad : list Q;           (* f.gradient(x) *)
@@ -156,6 +157,6 @@ Definition fcheck (k : fcase) : bool :=
   let e := f_e k in let x := f_x k in let w := f_w k in
   fwt e && Nat.eqb (length x) (fdim e) && Nat.eqb (length (f_d k)) (fdim e) && Nat.eqb (length w) (fdim e)
   && qc (f_val k) (feval Qsqrt w e x)
-  && qsc (f_grad k) (fgrad Qsqrt w e x)
-  && qc (f_dd k) (wdot w (f_d k) (fgrad Qsqrt w e x))
+  && qsc (f_grad k) (fgrad Qsqrt (f_rzv k) (f_mav k) w e x)
+  && qc (f_dd k) (wdot w (f_d k) (fgrad Qsqrt (f_rzv k) (f_mav k) w e x))
   && f_inner k.
